@@ -26,6 +26,9 @@ import (
 	"pgregory.net/rapid"
 )
 
+// vfC15RepointIdx is added to a list's index to name its second source.
+const vfC15RepointIdx = 50
+
 // vfC15AdminContent is version ver of list idx: source text and normal form.
 func vfC15AdminContent(idx, ver int) (raw, nf []byte, count int) {
 	rules := []string{fmt.Sprintf("||l%dv%d.probe.test^", idx, ver), fmt.Sprintf("||l%dcommon.probe.test^", idx)}
@@ -145,24 +148,52 @@ func TestVFC15RefreshVsAdmin(t *testing.T) {
 				serve(l, 2, true)
 			}
 		}
-		op := rapid.SampledFrom([]string{"remove", "remove", "disable", "none"}).Draw(t, "admin_op")
+		op := rapid.SampledFrom([]string{"remove", "remove", "disable", "none", "repoint", "repoint"}).Draw(t, "admin_op")
 		target := rapid.IntRange(1, n).Draw(t, "admin_target")
 		during := rapid.IntRange(1, n).Draw(t, "during_download_of")
+		adminDone := make(chan struct{})
+		var adminCode int
+		var adminResp []byte
 		hookMu.Lock()
 		hookFor = during
 		if op != "none" {
 			tl := w.lists[target-1]
 			hook = func() {
+				// The call is the administrator's, not the list server's: it
+				// runs on its own, and the download goes on once the call has
+				// ended or has visibly come to wait (for the refresh to end,
+				// which is a legitimate way to order the two).
+				path := "/control/filtering/set_url"
+				var body []byte
 				switch op {
 				case "remove":
-					body, _ := json.Marshal(map[string]any{"url": tl.URL, "whitelist": false})
-					w.call(t, http.MethodPost, "/control/filtering/remove_url", body)
+					path = "/control/filtering/remove_url"
+					body, _ = json.Marshal(map[string]any{"url": tl.URL, "whitelist": false})
+				case "repoint":
+					// the list gets another source, which delivers at once
+					raw, _, _ := vfC15AdminContent(vfC15RepointIdx+tl.Idx, 1)
+					w.srv.mu.Lock()
+					w.srv.acts[vfC15RepointIdx+tl.Idx] = &vfC15Act{Kind: "ok", Variant: "fresh", Ver: 1, Body: raw}
+					w.srv.mu.Unlock()
+					body, _ = json.Marshal(map[string]any{
+						"url": tl.URL, "whitelist": false,
+						"data": map[string]any{"name": "list", "url": fmt.Sprintf("%s/l/%d", w.srv.srv.URL, vfC15RepointIdx+tl.Idx), "enabled": true},
+					})
 				default:
-					body, _ := json.Marshal(map[string]any{
+					body, _ = json.Marshal(map[string]any{
 						"url": tl.URL, "whitelist": false,
 						"data": map[string]any{"name": "list", "url": tl.URL, "enabled": false},
 					})
-					w.call(t, http.MethodPost, "/control/filtering/set_url", body)
+				}
+				go func() {
+					defer close(adminDone)
+					adminCode, adminResp = w.call(vfC15Errorf{t}, http.MethodPost, path, body)
+				}()
+				select {
+				case <-adminDone:
+					vfC15.Class("admin:" + op + ":ran_during_the_download")
+				case <-time.After(300 * time.Millisecond):
+					vfC15.Class("admin:" + op + ":waited_for_the_refresh")
 				}
 			}
 		}
@@ -170,6 +201,18 @@ func TestVFC15RefreshVsAdmin(t *testing.T) {
 
 		desc := fmt.Sprintf("lists %v; %s list %d during the download of list %d", kinds, op, target, during)
 		refresh("second refresh")
+		if op != "none" {
+			select {
+			case <-adminDone:
+			case <-time.After(60 * time.Second):
+				t.Fatalf("the admin call has not returned 60 s after the refresh ended (%s)", desc)
+			}
+			if adminCode != http.StatusOK {
+				t.Fatalf("the admin call was refused: %d %s (%s)", adminCode, adminResp, desc)
+			}
+			// the rebuild it asked for
+			worker()
+		}
 		hookMu.Lock()
 		ran := hookDone
 		hook = nil
@@ -190,6 +233,31 @@ func TestVFC15RefreshVsAdmin(t *testing.T) {
 		check := func() (err error) {
 			counts := w.statusCounts(t)
 			for _, l := range w.lists {
+				if op == "repoint" && l.Idx == target {
+					// the list is what its new source delivered, whatever
+					// the refresh was doing with the old one meanwhile
+					_, nf, cnt := vfC15AdminContent(vfC15RepointIdx+l.Idx, 1)
+					got, rerr := os.ReadFile(w.filterPath(l))
+					if rerr != nil {
+						return fmt.Errorf("re-pointed list %d: %w", l.Idx, rerr)
+					}
+					if string(got) != string(nf) {
+						return fmt.Errorf("re-pointed list %d (old source: %s): the stored file is %q, want the normal form of what the new source delivered %q", l.Idx, kinds[l.Idx], got, nf)
+					}
+					if counts[int(l.ID)] != cnt {
+						return fmt.Errorf("re-pointed list %d: rules_count is %d, the stored file has %d rules", l.Idx, counts[int(l.ID)], cnt)
+					}
+					if id, blocked := blockedBy(fmt.Sprintf("l%dv1.probe.test", vfC15RepointIdx+l.Idx)); !blocked || id != int(l.ID) {
+						return fmt.Errorf("re-pointed list %d: the rules of the new source are not in force", l.Idx)
+					}
+					for v := 1; v <= 2; v++ {
+						if _, blocked := blockedBy(fmt.Sprintf("l%dv%d.probe.test", l.Idx, v)); blocked {
+							return fmt.Errorf("re-pointed list %d: version %d of the old source is in force", l.Idx, v)
+						}
+					}
+
+					continue
+				}
 				if op != "none" && l.Idx == target {
 					continue
 				}
@@ -278,3 +346,12 @@ func TestVFC15RefreshVsAdmin(t *testing.T) {
 		}
 	})
 }
+
+// vfC15Errorf lets code that runs outside the test's goroutine report through
+// a *rapid.T: Fatalf there must not be called from another goroutine.
+type vfC15Errorf struct{ t *rapid.T }
+
+func (e vfC15Errorf) Fatalf(format string, args ...any) { e.t.Errorf(format, args...) }
+func (e vfC15Errorf) Errorf(format string, args ...any) { e.t.Errorf(format, args...) }
+func (e vfC15Errorf) Logf(format string, args ...any)   { e.t.Logf(format, args...) }
+func (e vfC15Errorf) Helper()                           {}
